@@ -308,14 +308,14 @@ Theorem C12_deadlock_refuted :
      forall a, cstep prefix_prog s a = None).
 Proof.
   split; [vm_compute; reflexivity|]. split.
-  - (* threads: 0 = auction (entry 4), 1 = refresh (entry 13) *)
-    exists [4%nat; 18%nat], [(0, 0); (1, 0); (1, 0); (1, 0); (1, 0); (1, 0)]%nat.
+  - (* threads: 0 = auction (entry 4), 1 = refresh (entry 19) *)
+    exists [4%nat; 19%nat], [(0, 0); (1, 0); (1, 0); (1, 0); (1, 0); (1, 0)]%nat.
     split; [intros e [<-|[<-|[]]]; vm_compute; tauto|].
     split.
     + vm_compute. intros t [<-|[<-|[]]]; discriminate.
     + intros [i c]. destruct i as [|[|i]]; vm_compute; try reflexivity. destruct i; reflexivity.
   - (* threads: 0 = auction of an unresolvable validator, 1 = refresh, 2 = lookup *)
-    exists [4%nat; 18%nat; 0%nat],
+    exists [4%nat; 19%nat; 0%nat],
       [(0, 0); (0, 0); (0, 0); (0, 0); (0, 0); (0, 1); (0, 0); (1, 0); (1, 0); (1, 0); (1, 0); (1, 0); (2, 0)]%nat.
     split; [intros e [<-|[<-|[<-|[]]]]; vm_compute; tauto|].
     split; [|split].
@@ -346,7 +346,7 @@ Proof. vm_compute. auto. Qed.
    refresh interleaved; a writer announced while a reader is inside *)
 Example C12_ex_run :
   let s := run (cstep hand_prog) [(0, 0); (3, 0); (3, 0); (3, 0); (3, 0); (3, 0); (1, 0)]%nat
-               (init_sys [0; 4; 8; 14]%nat) in
+               (init_sys [0; 4; 8; 15]%nat) in
   l_readers (s_lock s) = 1%nat /\ l_writer (s_lock s) = WPending 3 /\
   cstep hand_prog s (1, 0)%nat = None /\ cstep hand_prog s (3, 0)%nat = None /\
   cstep hand_prog s (0, 0)%nat <> None.
